@@ -322,11 +322,52 @@ var vfC38FieldEnums = map[reflect.Type][]int64{
 	reflect.TypeOf(DTLSRole(0)):           {0, 1, 2, 3},
 }
 
+// declared constants of the string-typed enums that occur as struct fields
+var vfC38StringEnums = map[reflect.Type][]string{
+	reflect.TypeOf(SCTPTransportPartialReliabilityMode("")): {"none", "forward-tsn", "i-forward-tsn"},
+	reflect.TypeOf(QualityLimitationReason("")):             {"none", "cpu", "bandwidth", "other"},
+	reflect.TypeOf(StatsICECandidatePairState("")):          {"frozen", "waiting", "in-progress", "failed", "succeeded"},
+	reflect.TypeOf(CodecType("")):                           {"encode", "decode"},
+	reflect.TypeOf(MediaKind("")):                           {"audio", "video"},
+}
+
 type vfC38Stream struct {
 	nums []uint64
 	strs []string
 	ni   int
 	si   int
+	// ptrMode forces every pointer / nested struct of the value: 0 = drawn per field from the
+	// stream, 1 = non-nil pointer to the zero value, 2 = non-nil pointer to the "defaults" value
+	// (all zero except string enums, which hold their first declared constant, e.g. "none")
+	ptrMode int
+	depth   int
+}
+
+// vfC38FillDefaults: zero everywhere, string enums at their first declared constant,
+// nested pointers non-nil.
+func vfC38FillDefaults(rv reflect.Value, depth int) {
+	t := rv.Type()
+	if t == vfC38TICEServer || t == vfC38TCertificate {
+		return
+	}
+	if vals, ok := vfC38StringEnums[t]; ok {
+		rv.SetString(vals[0])
+		return
+	}
+	switch t.Kind() {
+	case reflect.Ptr:
+		if depth < 4 {
+			p := reflect.New(t.Elem())
+			vfC38FillDefaults(p.Elem(), depth+1)
+			rv.Set(p)
+		}
+	case reflect.Struct:
+		for i := 0; i < t.NumField(); i++ {
+			if t.Field(i).IsExported() {
+				vfC38FillDefaults(rv.Field(i), depth+1)
+			}
+		}
+	}
 }
 
 func (s *vfC38Stream) num() uint64 {
@@ -482,6 +523,18 @@ func vfC38Fill(rv reflect.Value, s *vfC38Stream) {
 		}
 		return
 	}
+	if vals, ok := vfC38StringEnums[t]; ok {
+		// zero, a declared constant, or an arbitrary string
+		switch n := s.num(); n & 3 {
+		case 0:
+			rv.SetString("")
+		case 1:
+			rv.SetString(s.str())
+		default:
+			rv.SetString(vals[int(n>>2)%len(vals)])
+		}
+		return
+	}
 	switch t.Kind() {
 	case reflect.Bool:
 		rv.SetBool(s.num()&1 == 1)
@@ -498,12 +551,22 @@ func vfC38Fill(rv reflect.Value, s *vfC38Stream) {
 			rv.SetString(s.str())
 		}
 	case reflect.Ptr:
-		if s.num()&1 == 0 {
-			rv.Set(reflect.Zero(t))
-			return
+		// {nil, pointer to the zero value, pointer to the defaults value, pointer to a drawn value}
+		mode := int(s.num() & 3)
+		if s.ptrMode != 0 {
+			mode = s.ptrMode
 		}
 		p := reflect.New(t.Elem())
-		vfC38Fill(p.Elem(), s)
+		switch mode {
+		case 0:
+			rv.Set(reflect.Zero(t))
+			return
+		case 1:
+		case 2:
+			vfC38FillDefaults(p.Elem(), 0)
+		default:
+			vfC38Fill(p.Elem(), s)
+		}
 		rv.Set(p)
 	case reflect.Slice:
 		n := s.num()
@@ -538,6 +601,17 @@ func vfC38Fill(rv reflect.Value, s *vfC38Stream) {
 		}
 		rv.Set(m)
 	case reflect.Struct:
+		if s.depth > 0 {
+			// a nested struct value: zero / defaults / drawn
+			switch s.num() & 3 {
+			case 0:
+				return
+			case 1:
+				vfC38FillDefaults(rv, 0)
+				return
+			}
+		}
+		s.depth++
 		for i := 0; i < t.NumField(); i++ {
 			f := t.Field(i)
 			if !f.IsExported() {
@@ -545,6 +619,7 @@ func vfC38Fill(rv reflect.Value, s *vfC38Stream) {
 			}
 			vfC38Fill(rv.Field(i), s)
 		}
+		s.depth--
 	case reflect.Interface:
 		// only ICEServer.Credential, handled above
 	}
@@ -666,11 +741,17 @@ type vfC38ValueCase struct {
 	T    string   `json:"t"`
 	Nums []uint64 `json:"nums"`
 	Strs []string `json:"strs"`
+	// Ptr: 0 = every pointer drawn from the stream (nil / ->zero / ->defaults / ->drawn),
+	// 1 = every pointer non-nil and pointing at the zero value, 2 = at the defaults value
+	Ptr int `json:"ptr,omitempty"`
 }
 
 // vfC38Build constructs the value a case denotes (pointer to the struct).
 func vfC38Build(c vfC38ValueCase) (reflect.Value, *vfC38StatsSpec) {
 	s := &vfC38Stream{nums: c.Nums, strs: c.Strs}
+	if c.Ptr == 1 || c.Ptr == 2 {
+		s.ptrMode = c.Ptr
+	}
 	if spec, ok := vfC38Stats[c.T]; ok {
 		p := reflect.New(spec.typ)
 		sel := s.num()
@@ -698,6 +779,7 @@ func vfC38RunValue(v *vfT, c vfC38ValueCase) {
 	}
 	val := p.Elem()
 	v.Label("type=" + c.T)
+	vfC38PtrLabels(v, val)
 	if val.IsZero() {
 		v.Label("zero-value")
 	} else {
@@ -728,6 +810,38 @@ func vfC38RunValue(v *vfT, c vfC38ValueCase) {
 	// encoding through a pointer must give the same bytes (value-receiver marshalers)
 	if b2, err := json.Marshal(p.Interface()); err != nil || string(b2) != string(b) {
 		v.Violation("C38/"+c.T+"/pointer-encoding-differs", "json.Marshal(&v) = %s, %v; json.Marshal(v) = %s", vfC38Clip(string(b2)), err, vfC38Clip(string(b)))
+	}
+}
+
+// vfC38PtrLabels counts which pointer shapes a value contains.
+func vfC38PtrLabels(v *vfT, rv reflect.Value) {
+	switch rv.Kind() {
+	case reflect.Ptr:
+		switch {
+		case rv.IsNil():
+			v.Label("pointer=nil")
+		case rv.Elem().IsZero():
+			v.Label("pointer->zero-value")
+		default:
+			d := reflect.New(rv.Type().Elem())
+			vfC38FillDefaults(d.Elem(), 0)
+			if _, diff := vfC38Eq(rv.Elem(), d.Elem(), ""); diff == "" {
+				v.Label("pointer->defaults-value")
+			} else {
+				v.Label("pointer->other")
+			}
+			vfC38PtrLabels(v, rv.Elem())
+		}
+	case reflect.Struct:
+		for i := 0; i < rv.NumField(); i++ {
+			if rv.Type().Field(i).IsExported() {
+				vfC38PtrLabels(v, rv.Field(i))
+			}
+		}
+	case reflect.Slice:
+		for i := 0; i < rv.Len(); i++ {
+			vfC38PtrLabels(v, rv.Index(i))
+		}
 	}
 }
 
@@ -767,6 +881,7 @@ func vfC38GenValue(v *vfT) vfC38ValueCase {
 	c.Nums = rapid.SliceOfN(rapid.Uint64(), 0, 150).Draw(v.R, "nums")
 	str := rapid.OneOf(rapid.SampledFrom(vfC38OddStrings), rapid.String(), rapid.StringN(0, 6, 12))
 	c.Strs = rapid.SliceOfN(str, 0, 6).Draw(v.R, "strs")
+	c.Ptr = rapid.SampledFrom([]int{0, 0, 0, 1, 2}).Draw(v.R, "ptr")
 	return c
 }
 
@@ -790,6 +905,12 @@ func TestVerif_C38_Corners(t *testing.T) {
 	for _, n := range vfC38SortedKeys(vfC38Stats) {
 		cases = append(cases, vfC38ValueCase{T: n})
 		cases = append(cases, vfC38ValueCase{T: n, Nums: []uint64{1, 3, 5, 7, 2, 10, 13}, Strs: []string{"x", ""}})
+	}
+	for _, n := range append(vfC38SortedKeys(vfC38Plain), vfC38SortedKeys(vfC38Stats)...) {
+		for _, pm := range []int{1, 2} { // every pointer non-nil: -> zero value, -> defaults ("none", ...)
+			cases = append(cases, vfC38ValueCase{T: n, Ptr: pm})
+			cases = append(cases, vfC38ValueCase{T: n, Ptr: pm, Nums: []uint64{1, 3, 5, 7, 2, 10, 13}, Strs: []string{"x", ""}})
+		}
 	}
 	// ICEServer: nil URLs, empty URLs, one URL
 	cases = append(cases, vfC38ValueCase{T: "ICEServer", Nums: []uint64{0}}, vfC38ValueCase{T: "ICEServer", Nums: []uint64{1}},
